@@ -12,6 +12,7 @@ import ast
 import re
 
 from sa.interp import Interp, Scenario, Sym, Const, Bytes, render, render_items, merge_consts, render_item
+from sa import families
 from sa.loader import AnalysisError
 from sa.sigdata import enum_const
 from sa import s2kshape
@@ -29,6 +30,7 @@ def run(rep, prog, tier):
     rep.assume('hashlib hashers are sequential: h.update(a); h.update(b) == h.update(a + b)')
 
     check_derive_key(rep, prog)
+    families.check_algorithm_ids(rep, prog, 'C12.2')
     # C12.3
     s2kshape.check_count(rep, prog, 'C12.3')
     # C12.4
